@@ -146,6 +146,11 @@ var progSpecs = []progSpec{
 	{"component_definition", "", "NewHolder", "holder_NewHolder", ""},
 	{"component_definition", "", "NewEmbedHolder", "holder_NewEmbedHolder", ""},
 	{"component_definition", "Meta", "GetAllProperties", "meta_GetAllProperties", ""},
+	{"configure", "", "NewConfigure", "cfg_NewConfigure", ""},
+	{"configure", "", "Default", "cfg_Default", ""},
+	{"configure", "configure", "AddLoaders", "cfg_AddLoaders", ""},
+	{"configure", "configure", "SetLoaders", "cfg_SetLoaders", ""},
+	{"configure", "configure", "SetBinder", "cfg_SetBinder", ""},
 	{"container/processors", "configQuoteAwarePostProcessors", "Order", "pp_quote_Order", ""},
 	{"container/processors", "configQuoteAwarePostProcessors", "PostProcessAfterInstantiation", "pp_quote_AfterInstantiation", ""},
 	{"container/processors", "configQuoteAwarePostProcessors", "PostProcessComponentFactory", "pp_quote_ComponentFactory", ""},
